@@ -48,7 +48,8 @@ def random_matrix(rng: random.Random, n: int, hi: int, sym: bool, zeros: float =
 class StubProcess:
     """A duck-typed optimisation process: records every (x, y) handed to register/evaluate."""
 
-    def __init__(self, inst, seed: int, budget: int) -> None:
+    def __init__(self, inst, seed: int, budget: int, raw: bool = False) -> None:
+        self.raw = raw       # keep the lengths as Python ints (instances with distances beyond 32 bits)
         self.inst = inst
         self.rng = np.random.default_rng(seed)
         self.budget = budget
@@ -69,7 +70,7 @@ class StubProcess:
 
     def register(self, x, y) -> None:
         self.calls += 1
-        self.trace.append({"x": [small(int(v) + 1) for v in x], "y": small(int(y))})
+        self.trace.append({"x": [small(int(v) + 1) for v in x], "y": int(y) if self.raw else small(int(y))})
 
     def should_terminate(self) -> bool:
         # the loop of the algorithms may spin without consuming evaluations (skipped moves);
